@@ -213,6 +213,9 @@ fn body(c: &Case, ch: &Chooser) -> Outcome {
 struct NetCase {
     order: Vec<usize>,
     chop: usize,
+    /// register every service through add_optional_service(Some(..)) and insert one absent
+    /// optional service (None) after this many registrations (must not disturb the others)
+    optional_none_after: Option<usize>,
 }
 
 macro_rules! router_add {
@@ -250,8 +253,25 @@ fn net_body(c: &NetCase, _ch: &Chooser) -> Outcome {
                 _ => b.add_service(route_x_a_Sv::sv_server::SvServer::new(h)),
             }
         };
-        for s in &c.order[1..] {
-            router = router_add!(router, *s, log);
+        if c.optional_none_after == Some(1) {
+            router = router.add_optional_service(None::<route_x_a_Sv::sv_server::SvServer<H>>);
+        }
+        for (k, s) in c.order[1..].iter().enumerate() {
+            if c.optional_none_after.is_some() {
+                let h = H { svc: *s, log: log.clone() };
+                router = match *s {
+                    0 => router.add_optional_service(Some(route_a_Sv::sv_server::SvServer::new(h))),
+                    1 => router.add_optional_service(Some(route_a_SvX::sv_x_server::SvXServer::new(h))),
+                    2 => router.add_optional_service(Some(route_a_sv::sv_server::svServer::new(h))),
+                    3 => router.add_optional_service(Some(route__Sv::sv_server::SvServer::new(h))),
+                    _ => router.add_optional_service(Some(route_x_a_Sv::sv_server::SvServer::new(h))),
+                };
+            } else {
+                router = router_add!(router, *s, log);
+            }
+            if c.optional_none_after == Some(k + 2) {
+                router = router.add_optional_service(None::<route_x_a_Sv::sv_server::SvServer<H>>);
+            }
         }
         tokio::spawn(async move {
             let _ = router.serve_with_incoming(vnet::incoming(rx)).await;
@@ -379,21 +399,27 @@ pub fn property(tier: Tier) -> Property {
     for a in 0..5usize {
         for b in 0..5usize {
             if a != b {
-                ncases.push(NetCase { order: vec![a, b], chop: (a + b) % 3 * 2 % 5 });
+                ncases.push(NetCase { order: vec![a, b], chop: (a + b) % 3 * 2 % 5, optional_none_after: None });
+                if b == (a + 1) % 5 {
+                    for pos in [1usize, 2] {
+                        ncases.push(NetCase { order: vec![a, b], chop: 0, optional_none_after: Some(pos) });
+                    }
+                }
             }
         }
-        ncases.push(NetCase { order: vec![a], chop: 0 });
+        ncases.push(NetCase { order: vec![a], chop: 0, optional_none_after: None });
     }
     if tier == Tier::Thorough {
-        ncases.push(NetCase { order: vec![0, 1, 2, 3, 4], chop: 2 });
-        ncases.push(NetCase { order: vec![4, 3, 2, 1, 0], chop: 3 });
+        ncases.push(NetCase { order: vec![0, 1, 2, 3, 4], chop: 2, optional_none_after: None });
+        ncases.push(NetCase { order: vec![0, 1, 2, 3], chop: 0, optional_none_after: Some(3) });
+        ncases.push(NetCase { order: vec![4, 3, 2, 1, 0], chop: 3, optional_none_after: None });
     }
     let net = Section::new(
         "server-transport",
         Config { hang_secs: 120, ..Default::default() },
-        "cases: every ordered pair (and every single one; thorough also all five in both orders) of the fixture services registered through Server::builder().add_service(..) and served by the real transport server over an in-memory pipe in virtual time; a bare hyper HTTP/2 client sends every path of the mutation menu on one connection (one execution = ~1000 requests); same RefRouter oracle. All cases count as non-trivial.",
+        "cases: every ordered pair (and every single one; thorough also all five in both orders) of the fixture services registered through Server::builder().add_service(..) (and, for consecutive pairs, through add_optional_service(Some(..)) with one absent optional service — None — inserted in the middle or at the end) and served by the real transport server over an in-memory pipe in virtual time; a bare hyper HTTP/2 client sends every path of the mutation menu on one connection (one execution = ~1000 requests); same RefRouter oracle. All cases count as non-trivial.",
         ncases,
-        |c: &NetCase| format!("order={:?} chop={}", c.order.iter().map(|s| SERVICES[*s]).collect::<Vec<_>>(), c.chop),
+        |c: &NetCase| format!("order={:?} chop={} optional_none_after={:?}", c.order.iter().map(|s| SERVICES[*s]).collect::<Vec<_>>(), c.chop, c.optional_none_after),
         net_body,
     )
     .mins(20, 5, 20);
